@@ -9,7 +9,7 @@ import (
 
 // vhRunDiff drives the real broadcastViewDiff(prev, cur) with a recording broadcaster and
 // checks both halves of the property for this one step.
-func vhRunDiff(pfx string, n int, prev, cur *vhSpec, sameRound bool, headers, prevotes, precommits bool) {
+func vhRunDiff(pfx string, n int, prev, cur *vhSpec, sameRound bool, order []int) {
 	keys := vkit.OkKeys(n)
 	rec := vhNewRec()
 	s := &ChattyStrategy{log: verifrt.Logger(), cb: rec}
@@ -24,7 +24,7 @@ func vhRunDiff(pfx string, n int, prev, cur *vhSpec, sameRound bool, headers, pr
 	sent := rec.drain()
 	verifrt.Observe(pfx+"-messages", uint64(len(sent.ph)), uint64(len(sent.votes[0])), uint64(len(sent.votes[1])))
 	got := vhReconstruct(pfx, n, sent, keys, []*vhSpec{cur})[0]
-	vhCheckEverything(pfx, vhNeed(prev, cur, sameRound), got, headers, prevotes, precommits)
+	vhCheckEverything(pfx, vhNeed(prev, cur, sameRound), got, order)
 }
 
 // vhSameRoundVotes: two consecutive views of the same height/round (both full-width
@@ -65,7 +65,7 @@ func vhSameRoundVotes(pfx string, focus int) {
 		verifrt.Reach(pfx + "-known-validator-signed-another-target")
 		run = pfx + "e"
 	}
-	vhRunDiff(run, n, prev, cur, true, true, true, true)
+	vhRunDiff(run, n, prev, cur, true, []int{vhCkHeaders, 1 - focus, focus})
 }
 
 // VH_C17_G1_SameRoundPrevotes: broadcastViewDiff on two views of one round whose prevotes grow.
@@ -89,7 +89,7 @@ func VH_C17_G3_SameRoundHeaders() {
 	} else {
 		verifrt.Reach("G3-new-header")
 	}
-	vhRunDiff("G3", n, prev, cur, true, true, true, true)
+	vhRunDiff("G3", n, prev, cur, true, vhAllChecks)
 }
 
 // VH_C17_G4_RoundChange: the new view is for another height or round (full-width symbols):
@@ -114,7 +114,7 @@ func VH_C17_G4_RoundChange() {
 	} else {
 		verifrt.Reach("G4-only-round-differs")
 	}
-	vhRunDiff("G4", n, prev, cur, false, true, true, true)
+	vhRunDiff("G4", n, prev, cur, false, vhAllChecks)
 }
 
 // VH_C17_G5_AllAndPrecommits drives broadcastAll(view) and broadcastPrecommits(view) (the
@@ -137,12 +137,12 @@ func VH_C17_G5_AllAndPrecommits() {
 		ok := s.broadcastAll(context.Background(), v)
 		verifrt.Assert(ok, "G5a:reports-success")
 		got := vhReconstruct("G5a", n, rec.drain(), keys, []*vhSpec{cur})[0]
-		vhCheckEverything("G5a", vhNeed(nil, cur, false), got, true, true, true)
+		vhCheckEverything("G5a", vhNeed(nil, cur, false), got, vhAllChecks)
 		return
 	}
 	verifrt.Reach("G5-broadcastPrecommits")
 	ok := s.broadcastPrecommits(context.Background(), v)
 	verifrt.Assert(ok, "G5n:reports-success")
 	got := vhReconstruct("G5n", n, rec.drain(), keys, []*vhSpec{cur})[0]
-	vhCheckEverything("G5n", vhNeed(nil, cur, false), got, false, false, true)
+	vhCheckEverything("G5n", vhNeed(nil, cur, false), got, []int{vhCkPrecommits})
 }
